@@ -42,7 +42,9 @@ CLAIM = {
 RULE = ("graphs: corpus (every API entry point - initializes_simulants, initialization_requirements, register_value_producer, "
         "register_rate_producer, register_value_modifier, time.register_step_size_modifier, pipelines as sources / modifiers - "
         "x each requires_* keyword alone and all three mixed, consumer shallow / producer 3 deep, keyword and positional "
-        "calls; results stratifications / observations; F-Q shape in two supply orders, cycles through a stream / modifier / pipeline source, every "
+        "calls; every callable flavour - function, lambda, bound method, functools.partial, callable object without / with a "
+        "str / int `name`, scalar / categorical / interpolated LookupTable built in setup - as source, as modifier and as "
+        "step-size modifier with requires_* chains; results stratifications / observations; F-Q shape in two supply orders, cycles through a stream / modifier / pipeline source, every "
         "duplicate kind, unmet requirements, null initializers, raw registrations) then random programs of 1-8 (thorough: "
         "1-12) probe components over ranked entities (initializers, pipelines with function / pipeline sources and "
         "modifiers, streams with CRN key columns, raw add_resources calls), declarations distributed over components "
@@ -258,19 +260,51 @@ def _classes():
             init.__name__ = f"init_{ident}"
             return types.MethodType(init, self)
 
-        def _modifier(self, j):
-            def mod(slf, index, value=None):
-                return value
-            mod.__name__ = f"mod_{j}"
-            return types.MethodType(mod, self)
+        def _callable(self, builder, flavour, j, step=False):
+            """A source / modifier callable of the requested flavour and the name _get_modifier_name documents for it
+            (None where the harness does not predict it).  Step-size modifiers must return real step sizes."""
+            import functools
 
-        def _step_modifier(self, j):
             import pandas as pd
 
-            def mod(slf, index):
-                return pd.Series(pd.Timedelta(days=1), index=index)
-            mod.__name__ = f"mod_{j}"
-            return types.MethodType(mod, self)
+            def body(index, value=None):
+                return pd.Series(pd.Timedelta(days=1), index=index) if step else value
+            me = self.spec["name"]
+            if flavour in (None, "bound"):
+                def mod(slf, index, value=None):
+                    return body(index, value)
+                mod.__name__ = f"mod_{j}"
+                return types.MethodType(mod, self), f"{me}.mod_{j}"
+            if flavour == "function":
+                def fn(index, value=None):
+                    return body(index, value)
+                fn.__name__ = f"fn_{me}_{j}"
+                return fn, fn.__name__
+            if flavour == "lambda":
+                return (lambda index, value=None: body(index, value)), "<lambda>"
+            if flavour == "partial":
+                return functools.partial(lambda tag, index, value=None: body(index, value), j), None
+            if flavour in ("object", "named_object", "named_object_int"):
+                class Obj:
+                    def __call__(slf, index, value=None):
+                        return body(index, value)
+                o = Obj()
+                if flavour == "named_object":
+                    o.name = f"nc_{me}_{j}"
+                elif flavour == "named_object_int":
+                    o.name = 100000 + 100 * int(me[1:]) + j if me[1:].isdigit() else 7
+                return o, (str(o.name) if hasattr(o, "name") else None)
+            if flavour == "table_scalar":
+                t = builder.lookup.build_table(5.0)
+            elif flavour == "table_categorical":
+                t = builder.lookup.build_table(pd.DataFrame({"k": ["a", "b"], "val": [1.0, 2.0]}), key_columns=["k"],
+                                               value_columns=["val"])
+            elif flavour == "table_interpolated":
+                t = builder.lookup.build_table(pd.DataFrame({"x_start": [0.0, 1.0], "x_end": [1.0, 2.0], "val": [1.0, 2.0]}),
+                                               parameter_columns=["x"], value_columns=["val"])
+            else:
+                raise ValueError(flavour)
+            return t, str(getattr(t, "name", None))
 
         def setup(self, builder):
             nmod = 0
@@ -287,22 +321,28 @@ def _classes():
                     reqs(builder.population.initializes_simulants, (self._initializer(self.spec["name"]), list(creates)),
                          rc, rv, rs)
                 elif kind in ("producer", "rate_producer"):
-                    _, v, src, rc, rv, rs = call
-                    source = builder.value.get_value(src) if src is not None else (lambda index: None)
+                    _, v, src, rc, rv, rs = call[:6]
+                    nsrc = getattr(self, "_nsrc", 0) + 1
+                    self._nsrc = nsrc
+                    source = builder.value.get_value(src) if src is not None else \
+                        self._callable(builder, call[6] if len(call) > 6 else "lambda", 50 + nsrc)[0]
                     f = builder.value.register_value_producer if kind == "producer" else builder.value.register_rate_producer
                     reqs(f, (v, source), rc, rv, rs)
                 elif kind == "modifier":
-                    _, v, mut, rc, rv, rs = call
+                    _, v, mut, rc, rv, rs = call[:6]
                     if mut is not None:
                         modifier = builder.value.get_value(mut)
                     else:
                         nmod += 1
-                        modifier = self._modifier(nmod)
+                        modifier, nm = self._callable(builder, call[6] if len(call) > 6 else "bound", nmod)
+                        self.run["modnames"][(self.spec["name"], nmod)] = nm
                     reqs(builder.value.register_value_modifier, (v, modifier), rc, rv, rs)
                 elif kind == "step_modifier":
-                    _, rc, rv, rs = call
+                    _, rc, rv, rs = call[:4]
                     nmod += 1
-                    reqs(builder.time.register_step_size_modifier, (self._step_modifier(nmod),), rc, rv, rs)
+                    modifier, nm = self._callable(builder, call[4] if len(call) > 4 else "bound", nmod, step=True)
+                    self.run["modnames"][(self.spec["name"], nmod)] = nm
+                    reqs(builder.time.register_step_size_modifier, (modifier,), rc, rv, rs)
                 elif kind == "get_value":
                     builder.value.get_value(call[1])
                 elif kind == "stream":
@@ -416,10 +456,12 @@ def translate(call, comp_name):
     kind = call[0]
     if kind == "init":
         return [["init", comp_name] + list(call[1:])]
-    if kind == "rate_producer":
-        return [["producer"] + list(call[1:])]
+    if kind in ("producer", "rate_producer"):
+        return [["producer"] + list(call[1:6])]
+    if kind == "modifier":
+        return [list(call[:6])]
     if kind == "step_modifier":
-        return [["modifier", step_size_pipeline(), None] + list(call[1:])]
+        return [["modifier", step_size_pipeline(), None] + list(call[1:4])]
     if kind in ("strat", "observe"):
         seen, out = set(), []
         for v in call[3]:
@@ -632,15 +674,16 @@ def canonical(case):
     return {"kc": list(case.get("kc", [])), "comps": comps, "mode": case.get("mode", "?"), "rev": bool(case.get("rev"))}
 
 
-def with_fun_ids(decls, owners, ids):
-    """append to every modifier declaration the id of its function name "<component>.mod_<j>" (j-th function modifier
-    - value or step-size - the component registers)"""
+def with_fun_ids(decls, owners, ids, names=None):
+    """append to every modifier declaration the id of the modifier's name: the one recorded when the j-th function
+    modifier (value or step-size) of the component was built, by default "<component>.mod_<j>" (bound method)"""
     out, counts = [], {}
     for d, owner in zip(decls, owners):
         if d[0] == "modifier":
             if d[2] is None:
                 counts[owner] = counts.get(owner, 0) + 1
-                out.append(d[:6] + [ids.f(f"{owner}.mod_{counts[owner]}")])
+                nm = (names or {}).get((owner, counts[owner])) or f"{owner}.mod_{counts[owner]}"
+                out.append(d[:6] + [ids.f(nm)])
             else:
                 out.append(d[:6] + [None])
         else:
@@ -656,10 +699,10 @@ def run_graph(case):
     amb_ids = {}
     for _, _, name in amb["inits"]:
         amb_ids.setdefault(name, 100 + len(amb_ids))
-    decls = with_fun_ids(*declarations(case), ids)
+    raw_decls, owners = declarations(case)
     kc = list(case["kc"])
     Probe, AutoProbe, Birther = _classes()
-    run = {"log": [], "births": list(BIRTHS), "marks": [], "born": []}
+    run = {"log": [], "births": list(BIRTHS), "marks": [], "born": [], "modnames": {}}
     comps = [(AutoProbe if c.get("auto") is not None else Probe)(c, run) for c in case["comps"]] + [Birther(run)]
     has_results = any(c[0] in ("strat", "observe") for comp in case["comps"] for c in comp["calls"])
     config = dict(CONFIG)
@@ -689,6 +732,7 @@ def run_graph(case):
         except Exception as e:                 # noqa: BLE001 - the error class is the observation
             err = e
     code = classify(err) if err is not None else 0
+    decls = with_fun_ids(raw_decls, owners, ids, run["modnames"])
     # ---- direct oracle ----
     ok, msg = True, ""
     reason, init_ids, anc = oracle_graph(decls, kc)
@@ -725,7 +769,7 @@ def run_graph(case):
     # ---- whatever order the components were supplied in: refusal parity in the reversed supply order ----
     rev_outcome = None
     if case.get("rev") and ok:
-        run2 = {"log": [], "births": [], "marks": [], "born": []}
+        run2 = {"log": [], "births": [], "marks": [], "born": [], "modnames": {}}
         comps2 = [(AutoProbe if c.get("auto") is not None else Probe)(c, run2) for c in reversed(case["comps"])] + [Birther(run2)]
         boot.reset_contexts()
         err2 = None
@@ -752,7 +796,7 @@ def run_graph(case):
                         if a != who and pos2[a] > pos2[who]:
                             ok, msg = False, f"reversed supply order: initializer {who} ran before {a}, which it requires"
     # ---- observation for Coq ----
-    kc_coq = czlist(map(ids.c, kc))
+    kc_coq = f"({czlist(map(ids.c, kc))} : list Z)"          # typed: a batch may hold only cases without key columns
     ds_coq = clist("\n     " + coq_decl(ids, d, amb_ids) for d in decls)
 
     def init_id(x):
@@ -804,6 +848,9 @@ def run_graph(case):
             f"decls_{min(len(decls) // 10 * 10, 40)}+") + (() if graph_seen else ("graph_unobservable",)) + \
         (("second_supply_order",) if case.get("rev") else ()) + tuple(sorted({f"decl_{d[0]}" for d in decls})) + \
         tuple(sorted({f"call_{c[0]}" for comp in case["comps"] for c in comp["calls"]}
+                     | {f"flavour_{c[-1]}" for comp in case["comps"] for c in comp["calls"]
+                        if c[0] in ("producer", "rate_producer", "modifier", "step_modifier") and isinstance(c[-1], str)
+                        and c[-1] in SRC_FLAVOURS}
                      | {"call_auto_requirements" for comp in case["comps"] if comp.get("auto") is not None}
                      | {"style_positional" if comp.get("pos") else "style_keyword" for comp in case["comps"]}))
     return Result(ok=ok, msg=msg, coq=coq, key=(case["kc"], case["comps"]) if n else None, obs=obs, tags=tags)
@@ -815,6 +862,14 @@ _COQ_CASES = []
 # ----------------------------------------------------------------------------------------------------------------
 # generator
 # ----------------------------------------------------------------------------------------------------------------
+# what a source / modifier callable may be (values.py decides by isinstance(Pipeline) / hasattr(name) / __self__ / __name__)
+SRC_FLAVOURS = ["function", "lambda", "bound", "partial", "object", "named_object", "named_object_int", "table_scalar",
+                "table_categorical", "table_interpolated"]
+# not "partial" / "object" as modifiers: _get_modifier_name crashes on them in the unchanged code (reported finding)
+MOD_FLAVOURS = [f for f in SRC_FLAVOURS if f not in ("partial", "object")]
+STEP_FLAVOURS = ["bound", "function", "lambda", "named_object", "named_object_int"]       # must return real step sizes
+
+
 class Prog:
     def __init__(self, rng, max_comps):
         self.rng = rng
@@ -883,13 +938,13 @@ class Prog:
             self.loose.append([rng.choice(["producer", "producer", "rate_producer"]), v, rng.choice(vals), [], [], []])
         elif r < 0.92:
             self.loose.append([rng.choice(["producer", "producer", "rate_producer"]), v, None,
-                               *self.pick_reqs(pool, unmet=unmet)])
+                               *self.pick_reqs(pool, unmet=unmet), rng.choice(SRC_FLAVOURS)])
         # else: never sourced (missing_value_source)
         for _ in range(rng.choice([0, 0, 1, 1, 2, 3])):
             if rng.random() < 0.2 and vals:
                 self.loose.append(["modifier", v, rng.choice(vals), [], [], []])
             else:
-                self.loose.append(["modifier", v, None, *self.pick_reqs(pool, maxn=2, unmet=unmet)])
+                self.loose.append(["modifier", v, None, *self.pick_reqs(pool, maxn=2, unmet=unmet), rng.choice(MOD_FLAVOURS)])
         if rng.random() < 0.3:
             self.loose.append(["get_value", v])
         self.entities.append(("val", v))
@@ -898,7 +953,7 @@ class Prog:
     def add_step_modifiers(self, pool, unmet):
         """builder.time.register_step_size_modifier: the clock's pipeline becomes an entity others can require"""
         for _ in range(self.rng.choice([1, 1, 2])):
-            self.loose.append(["step_modifier", *self.pick_reqs(pool, unmet=unmet)])
+            self.loose.append(["step_modifier", *self.pick_reqs(pool, unmet=unmet), self.rng.choice(STEP_FLAVOURS)])
         self.entities.append(("val", step_size_pipeline()))
 
     def add_results(self, pool):
@@ -924,7 +979,8 @@ class Prog:
 def gen_program(rng, max_comps=8):
     mode = rng.choices(["dag", "cycle", "dup", "random", "chain"], weights=[40, 22, 13, 10, 15])[0]
     if mode == "chain":
-        c = chain_case(rng.choice(ENTRY_POINTS), rng.choice(KEYWORD_SETS), rng.random() < 0.5, rng.randint(1, 4))
+        entry = rng.choice(ENTRY_POINTS)
+        c = chain_case(entry, rng.choice(KEYWORD_SETS), rng.random() < 0.5, rng.randint(1, 4), rng.choice(flavours_for(entry)))
         rng.shuffle(c["comps"])
         c["rev"] = rng.random() < 0.2
         return c
@@ -1018,16 +1074,16 @@ def plant_cycle(P, rng):
             cur = ("col", c)
         elif ch in ("src", "rate"):
             v = P.val()
-            P.loose.append(["producer" if ch == "src" else "rate_producer", v, None, rc, rv, rs])
+            P.loose.append(["producer" if ch == "src" else "rate_producer", v, None, rc, rv, rs, rng.choice(SRC_FLAVOURS)])
             cur = ("val", v)
         elif ch == "step_mod":
-            P.loose.append(["step_modifier", rc, rv, rs])
+            P.loose.append(["step_modifier", rc, rv, rs, rng.choice(STEP_FLAVOURS)])
             cur = ("val", step_size_pipeline())
         elif ch == "mod":
             v = P.val()
             if rng.random() < 0.7:
                 P.loose.append(["producer", v, None, [], [], []])
-            P.loose.append(["modifier", v, None, rc, rv, rs])
+            P.loose.append(["modifier", v, None, rc, rv, rs, rng.choice(MOD_FLAVOURS)])
             cur = ("val", v)
         elif ch in ("pipe_src", "pipe_mod") and kind == "val":
             v = P.val()
@@ -1089,7 +1145,12 @@ ENTRY_POINTS = ["init_call", "init_auto", "producer", "rate_producer", "modifier
 KEYWORD_SETS = [("col",), ("val",), ("str",), ("col", "val"), ("col", "str"), ("val", "str"), ("col", "val", "str")]
 
 
-def chain_case(entry, keywords, pos, depth):
+def flavours_for(entry):
+    return {"producer": SRC_FLAVOURS, "rate_producer": SRC_FLAVOURS, "pipe_source": SRC_FLAVOURS, "pipe_modifier": SRC_FLAVOURS,
+            "modifier": MOD_FLAVOURS, "step_modifier": STEP_FLAVOURS}.get(entry, [None])
+
+
+def chain_case(entry, keywords, pos, depth, flavour=None):
     """A shallow consumer initializer (supplied first) whose requirement reaches - through the API entry point `entry`
     and each of the requires_* keywords in `keywords` separately - the LAST column of its own chain
     root -> ... -> base of `depth` initializers (supplied last): a dropped or swapped requirement changes the order."""
@@ -1128,22 +1189,23 @@ def chain_case(entry, keywords, pos, depth):
     if entry in ("init_call", "init_auto"):
         need = [rc, rv, rs]
     else:
+        fl = [flavour] if flavour is not None else []
         if entry == "step_modifier":
             target = step_size_pipeline()
-            helper["calls"].append(["step_modifier", rc, rv, rs])
+            helper["calls"].append(["step_modifier", rc, rv, rs] + fl)
         else:
             target = fresh("v")
             if entry in ("producer", "rate_producer"):
-                helper["calls"].append([entry, target, None, rc, rv, rs])
+                helper["calls"].append([entry, target, None, rc, rv, rs] + fl)
             elif entry == "modifier":
-                helper["calls"] += [["modifier", target, None, rc, rv, rs], ["producer", target, None, [], [], []]]
+                helper["calls"] += [["modifier", target, None, rc, rv, rs] + fl, ["producer", target, None, [], [], []]]
             else:
                 u = fresh("v")
                 if entry == "pipe_source":
-                    helper["calls"] += [["producer", target, u, [], [], []], ["rate_producer", u, None, rc, rv, rs]]
+                    helper["calls"] += [["producer", target, u, [], [], []], ["rate_producer", u, None, rc, rv, rs] + fl]
                 else:
                     helper["calls"] += [["modifier", target, u, [], [], []], ["producer", target, None, [], [], []],
-                                        ["producer", u, None, rc, rv, rs]]
+                                        ["producer", u, None, rc, rv, rs] + fl]
         need = [[], [target], []]
     if entry == "init_call":
         consumer["calls"].append(["init", [own]] + need)
@@ -1217,6 +1279,14 @@ def corpus():
             c = chain_case(entry, kws, pos=bool(i % 2), depth=3)
             c["mode"] = "corpus_chain"
             out.append(c)
+    # every callable flavour as source, as modifier and as step-size modifier: all three keywords mixed, and one alone
+    for entry in ("producer", "modifier", "step_modifier"):
+        for k, fl in enumerate(flavours_for(entry)):
+            for kws in (("col", "val", "str"), KEYWORD_SETS[k % 3]):
+                i += 1
+                c = chain_case(entry, kws, pos=bool(i % 2), depth=3, flavour=fl)
+                c["mode"] = "corpus_flavour"
+                out.append(c)
     # results declarations request pipelines (value.<v> nodes with a missing source); a cycle through a step-size modifier
     out.append({"kc": [], "comps": [comp("p1", [["strat", "r1", ["c1"], ["v1", "v2", "current_time"]], ["observe", "r2", [], ["v3", "v1"]],
                                                 ["producer", "v2", None, ["c2"], [], []]], auto=[["c1"], [], ["v2", "v3"], []]),
@@ -1250,6 +1320,10 @@ def shrink_graph(case):
             for k, arg in enumerate(comp["auto"]):
                 for m in range(len(arg)):
                     c = copy.deepcopy(case); del c["comps"][i]["auto"][k][m]; yield c
+        for j, call in enumerate(comp["calls"]):
+            if isinstance(call[-1], str) and ((call[0] in ("producer", "rate_producer", "modifier") and len(call) == 7)
+                                              or (call[0] == "step_modifier" and len(call) == 5)):
+                c = copy.deepcopy(case); del c["comps"][i]["calls"][j][-1]; yield c
         if comp.get("pos"):
             c = copy.deepcopy(case); c["comps"][i]["pos"] = False; yield c
     if case.get("rev"):
